@@ -27,6 +27,9 @@ class DecStr(Str):
         self.n, self.width = n, width
         self.v = z3.IntToStr(z3.BV2Int(n, False))
 
+    def render(self, model):
+        return str(model.eval(self.n, model_completion=True).as_long())
+
     def parse_int(self, e, ty, lo, hi):
         from .lib import ok, err
         from .mirparse import INT_TYPES
@@ -35,6 +38,22 @@ class DecStr(Str):
         if e.branch(fits):
             return ok(Int(z3.Extract(w - 1, 0, self.n), ty))
         return err(Adt('ParseIntError', None, (Str('number too large to fit in target type'),)))
+
+
+class SizedStr(Str):
+    """string of which only the byte length (a symbolic 64-bit value) is observable"""
+    __slots__ = ('byte_len',)
+
+    def __init__(self, byte_len):
+        self.byte_len = byte_len
+        self.v = None
+
+    @property
+    def concrete(self):
+        return False
+
+    def render(self, model):
+        return 'r' * model.eval(self.byte_len, model_completion=True).as_long()
 
 
 class TreeBuilder:
@@ -334,6 +353,8 @@ def concretize(v, choices, model=None, default=0):
     if isinstance(v, Str) and not v.concrete:
         if model is None:
             return v
+        if hasattr(v, 'render'):
+            return Str(v.render(model))
         val = model.eval(v.v, model_completion=True)
         return Str(val.as_string())
     if z3.is_bool(v):
